@@ -127,6 +127,20 @@ pub fn run_seeded(prop: &str, seed: u64, thorough: bool, keep_log: bool) -> (Tra
     (trace, res)
 }
 
+/// `exec` on a thread of its own, so that thread-local state inside the library cannot carry over
+/// from one execution to the next (minimisation re-executes hundreds of candidates in one process).
+pub fn exec_isolated(nodes: &[NodeSpec], events: &[Event], seed: u64, prop: &str, keep_log: bool) -> Option<RunResult> {
+    std::thread::scope(|sc| {
+        std::thread::Builder::new()
+            .stack_size(16 << 20)
+            .spawn_scoped(sc, || exec(nodes, events, seed, prop, keep_log))
+            .ok()?
+            .join()
+            .ok()
+            .flatten()
+    })
+}
+
 pub fn has_fingerprint(r: &RunResult, prop: &str, check: &str) -> bool {
     r.viols.iter().any(|v| v.prop == prop && v.check == check)
 }
@@ -139,9 +153,9 @@ pub fn minimise(t: &Trace, prop: &str, check: &str, budget: usize) -> (Trace, us
     let mut used = 0usize;
     let test = |nodes: &[NodeSpec], evs: &[Event], used: &mut usize| -> bool {
         *used += 1;
-        match std::panic::catch_unwind(std::panic::AssertUnwindSafe(|| exec(nodes, evs, t.seed, prop, false))) {
-            Ok(Some(r)) => has_fingerprint(&r, prop, check),
-            _ => false,
+        match exec_isolated(nodes, evs, t.seed, prop, false) {
+            Some(r) => has_fingerprint(&r, prop, check),
+            None => false,
         }
     };
     // ddmin
